@@ -63,6 +63,8 @@ pub struct MOp {
     pub sub: Option<usize>,
     /// PUBLISH was put on the wire and its handshake is not finished (for C10/C11/C17 accounting)
     pub inflight: bool,
+    /// nothing is prescribed about this operation any more (it may fail or stay pending)
+    pub lenient: bool,
 }
 
 #[derive(Clone, Debug)]
@@ -146,6 +148,11 @@ pub struct Model {
     pub sent_log: Vec<(usize, bool)>,
     /// a panic whose message contains this text is a documented assertion, not a violation
     pub exempt_panic: Option<&'static str>,
+    /// mirror of the harness gate (DESIGN 3.3): inbound bytes are withheld from a running context
+    /// while a request may be queued
+    pub gate_closed: bool,
+    /// mirror of the context task's wake flag while it is inside run()
+    pub ctx_woken: bool,
 }
 
 fn pat_matches(p: &ResPat, got: &str) -> bool {
@@ -191,6 +198,8 @@ impl Model {
             live_handles: 0,
             sent_log: vec![],
             exempt_panic: None,
+            gate_closed: false,
+            ctx_woken: false,
         }
     }
 
@@ -237,8 +246,20 @@ impl Model {
         }
     }
 
+    fn input_pending(&self) -> bool {
+        !self.inbox.is_empty() || self.eof || self.read_err
+    }
+
+    /// inbound bytes / end-of-stream became available: the reader's waker fires unless the gate holds
+    pub fn input_arrived(&mut self) {
+        if self.ctx != CtxSt::Running || !self.gate_closed {
+            self.ctx_woken = true;
+        }
+    }
+
     pub fn run(&mut self) {
         self.ctx = CtxSt::Running;
+        self.ctx_woken = true;
     }
 
     pub fn start(&mut self, spec: OpSpec) -> usize {
@@ -250,6 +271,7 @@ impl Model {
             pid: None,
             sub: None,
             inflight: false,
+            lenient: false,
         });
         self.wake.insert(self.ops.len() - 1);
         self.live_handles += 1;
@@ -261,6 +283,10 @@ impl Model {
             self.live_handles -= 1;
         }
         self.ops[op].alive = false;
+        self.gate_closed = true;
+        if !self.handles_alive() {
+            self.ctx_woken = true; // the request channel closes
+        }
         self.wake.remove(&op);
         if let Some(s) = self.ops[op].sub {
             // the receiver lives inside the subscribe future until it completes
@@ -272,6 +298,7 @@ impl Model {
 
     pub fn deliver(&mut self, p: SPacket) {
         self.inbox.push_back(p);
+        self.input_arrived();
     }
 
     pub fn take_stream(&mut self, op: usize) -> usize {
@@ -324,6 +351,10 @@ impl Model {
 
     pub fn drop_master(&mut self) {
         self.master_alive = false;
+        self.gate_closed = true;
+        if !self.handles_alive() {
+            self.ctx_woken = true;
+        }
     }
 
     fn handles_alive(&self) -> bool {
@@ -340,13 +371,7 @@ impl Model {
         }
         match self.ctx {
             CtxSt::Connecting => !self.inbox.is_empty() || self.eof || self.read_err,
-            CtxSt::Running => {
-                !self.queue.is_empty()
-                    || !self.inbox.is_empty()
-                    || self.eof
-                    || self.read_err
-                    || !self.handles_alive()
-            }
+            CtxSt::Running => self.ctx_woken,
             _ => false,
         }
     }
@@ -381,6 +406,14 @@ impl Model {
                 s.alive && !s.held && s.woken && !s.ended
             }) {
                 self.stream_step(i);
+                continue;
+            }
+            // quiescent: a context parked in its select loop has an empty queue, the gate opens
+            if self.gate_closed && self.ctx == CtxSt::Running && !self.ctx_held {
+                self.gate_closed = false;
+                if self.input_pending() {
+                    self.ctx_woken = true;
+                }
                 continue;
             }
             break;
@@ -423,7 +456,8 @@ impl Model {
             }
             return;
         }
-        // Running
+        // Running: one poll of the select loop
+        self.ctx_woken = false;
         if !self.queue.is_empty() {
             while let Some(m) = self.queue.pop_front() {
                 self.process_msg(m);
@@ -431,33 +465,33 @@ impl Model {
                     return;
                 }
             }
-            return;
         }
         // The closed request channel is seen by the same select branch as queued requests, which
-        // the harness lets win over inbound bytes (gating rule): with both pending after a held
-        // context task, HandleClosed comes first.
+        // the harness lets win over inbound bytes (gating rule).
         if !self.handles_alive() {
             self.ctx_return("run", ResPat::Exact("Err:HandleClosed".into()));
             self.hit("run-handle-closed");
             return;
         }
-        if !self.inbox.is_empty() {
-            while let Some(p) = self.inbox.pop_front() {
-                self.process_packet(p);
-                if self.ctx != CtxSt::Running {
-                    return;
-                }
+        if self.gate_closed {
+            // the reader was gated: the poll ends Pending with the queue drained, the gate opens and
+            // (if anything is waiting) the reader's waker fires
+            self.gate_closed = false;
+            if self.input_pending() {
+                self.ctx_woken = true;
             }
             return;
+        }
+        // the reader is polled until it has nothing more: every packet, then the end of the stream
+        while let Some(p) = self.inbox.pop_front() {
+            self.process_packet(p);
+            if self.ctx != CtxSt::Running {
+                return;
+            }
         }
         if self.eof || self.read_err {
             self.ctx_return("run", ResPat::Exact("Err:SocketClosed".into()));
             self.hit("run-socket-closed");
-            return;
-        }
-        if !self.handles_alive() {
-            self.ctx_return("run", ResPat::Exact("Err:HandleClosed".into()));
-            self.hit("run-handle-closed");
         }
     }
 
@@ -503,6 +537,14 @@ impl Model {
             self.hit("resume-expired");
             return;
         }
+        // Requests other than publishes that were awaiting their acknowledgement are not re-sent;
+        // whether their futures stay pending or fail is not prescribed.
+        for o in self.ops.iter_mut() {
+            if !matches!(o.spec, OpSpec::Publish(_)) && matches!(o.st, St::Queued | St::AwaitAck) {
+                o.lenient = true;
+            }
+        }
+        self.pings.clear();
         let log = self.sent_log.clone();
         for (op, pubrel) in log {
             let st = self.ops[op].st.clone();
@@ -848,7 +890,13 @@ impl Model {
         }
     }
 
+    /// an operation task was polled without a wakeup: nothing changes, but the harness gate closes
+    pub fn spurious_op(&mut self) {
+        self.gate_closed = true;
+    }
+
     fn op_step(&mut self, op: usize) {
+        self.gate_closed = true;
         let st = self.ops[op].st.clone();
         match st {
             St::NotPolled => {
@@ -892,6 +940,7 @@ impl Model {
                     self.hit("op-after-context-gone");
                 } else {
                     self.queue.push_back(Msg::First(op));
+                    self.ctx_woken = true;
                     self.ops[op].st = St::Queued;
                 }
             }
@@ -905,6 +954,7 @@ impl Model {
                     self.live_handles -= 1;
                 } else {
                     self.queue.push_back(Msg::Pubrel(op));
+                    self.ctx_woken = true;
                     self.ops[op].st = St::RelQueued;
                 }
             }
@@ -921,6 +971,9 @@ impl Model {
                 self.expected.push(Expect::Done { op, res });
                 self.ops[op].st = St::Done;
                 self.live_handles -= 1;
+                if !self.handles_alive() {
+                    self.ctx_woken = true;
+                }
             }
             _ => {}
         }
@@ -1206,6 +1259,8 @@ impl Model {
                                 ),
                             });
                         }
+                    } else if self.ops[*op].lenient && res.starts_with("Err:") {
+                        // unconstrained
                     } else if self.check_ops {
                         out.push(Mismatch {
                             rule: format!("op-unexpected-completion:{}", self.op_kind(*op)),
